@@ -8,11 +8,16 @@ package main
 
 import (
 	"bufio"
+	"bytes"
 	"encoding/json"
+	"errors"
 	"fmt"
 	mrand "math/rand"
 	"os"
+	"sync"
+	"time"
 
+	"gitlab.com/yawning/obfs4.git/transports/obfs4"
 	ref "verif.local/harness/ref/obfs4"
 	"verif.local/harness/o4"
 	"verif.local/harness/stream"
@@ -32,6 +37,7 @@ type scenario struct {
 	CPad   int           `json:"cpad"`   // reference client: request padding
 	RefPad bool          `json:"refpad"` // reference endpoints add random packet padding to their writes
 	RSeed  int64         `json:"rseed"`
+	Wire   bool          `json:"wire"` // C06: re-derive what the real endpoints put on the wire with the reference codec
 	Script stream.Script `json:"script"`
 }
 
@@ -100,5 +106,110 @@ func run(w *vt.Writer, s *scenario) {
 	if s.Server == "ref" {
 		mkS = b.RefServer(s.SPad, pad, noise, &rs)
 	}
-	stream.Run(w, mkC, mkS, &s.Script, nil)
+	// everything each side puts on the wire, chunk by chunk as written
+	var mu sync.Mutex
+	chunks := map[string][][]byte{}
+	if s.Wire {
+		s.Script.Tap = func(dir string, b []byte) {
+			mu.Lock()
+			chunks[dir] = append(chunks[dir], append([]byte(nil), b...))
+			mu.Unlock()
+		}
+	}
+	if s.Wire {
+		k := obfs4.VerifHandshakeConstants()
+		ev := vt.Ev{"event": "Consts"}
+		for name, v := range k {
+			ev[name] = v
+		}
+		w.Emit(ev)
+	}
+	res := stream.Run(w, mkC, mkS, &s.Script, nil)
+	if !s.Wire || !res.HandshakeOK {
+		return
+	}
+	mu.Lock()
+	defer mu.Unlock()
+	cat := func(cs [][]byte) []byte {
+		var o []byte
+		for _, c := range cs {
+			o = append(o, c...)
+		}
+		return o
+	}
+	now := ref.EpochHour(time.Now())
+	// a real client against the reference server: the request and every frame it sent
+	if s.Client == "real" && rs != nil && rs.Request != nil {
+		all := cat(chunks["c2s"])
+		reqLen := 64 + rs.Request.PadLen
+		if reqLen <= len(all) {
+			info, err := ref.ExplainRequest(b.ID, all[:reqLen], now)
+			ev := vt.Ev{"event": "Req", "padlen": -1, "total": reqLen, "hour_off": 99, "mark_ok": false, "mac_ok": false}
+			if info != nil {
+				ev["padlen"], ev["hour_off"] = info.PadLen, info.HourOffset
+				ev["mark_ok"] = err == nil || !errors.Is(err, ref.ErrMark)
+				ev["mac_ok"] = err == nil
+			}
+			w.Emit(ev)
+			framesEvent(w, "c2s", all[reqLen:], rs.OKM[:ref.KeyLen])
+		}
+	}
+	// a real server against the reference client: the response, the seed frame, and every frame it sent
+	if s.Server == "real" && rc != nil && rc.Response != nil && len(chunks["s2c"]) > 0 {
+		all := cat(chunks["s2c"])
+		first := chunks["s2c"][0]
+		info, err := ref.ExplainResponse(b.ID, all, now)
+		ev := vt.Ev{"event": "Resp", "padlen": -1, "len": 0, "mark_ok": false, "mac_ok": false, "seed_flen": 0, "seed_ok": false, "seed_pad": -1, "total": len(first)}
+		if info != nil && err == nil {
+			ev["padlen"], ev["len"], ev["mark_ok"], ev["mac_ok"] = info.PadLen, info.Len, info.MarkOK, info.MacOK
+			dec := ref.NewDecoder(rc.OKM[ref.KeyLen:])
+			if p, n, derr := dec.Decode(all[info.Len:]); derr == nil {
+				if pk, perr := ref.ParsePacket(p); perr == nil {
+					ev["seed_flen"], ev["seed_pad"] = n, pk.PadLen
+					ev["seed_ok"] = pk.Type == ref.PacketTypeSeed && bytes.Equal(pk.Payload, b.Seed[:])
+				}
+			}
+			w.Emit(ev)
+			framesEvent(w, "s2c", all[info.Len:], rc.OKM[ref.KeyLen:])
+		} else {
+			w.Emit(ev)
+		}
+	}
+}
+
+// framesEvent decodes every frame in buf with the given 72-byte key (as derived by the REFERENCE side) and summarises them
+func framesEvent(w *vt.Writer, dir string, buf []byte, key []byte) {
+	dec := ref.NewDecoder(key)
+	n, maxF, minF := 0, 0, 1<<30
+	all, types, padz := true, true, true
+	for len(buf) > 0 {
+		p, k, err := dec.Decode(buf)
+		if err != nil {
+			all = false
+			break
+		}
+		buf = buf[k:]
+		n++
+		if k > maxF {
+			maxF = k
+		}
+		if k < minF {
+			minF = k
+		}
+		pk, perr := ref.ParsePacket(p)
+		if perr != nil {
+			all = false
+			break
+		}
+		if pk.Type != ref.PacketTypePayload && pk.Type != ref.PacketTypeSeed {
+			types = false
+		}
+		if !pk.PaddingAllZero {
+			padz = false
+		}
+	}
+	if n == 0 {
+		minF = 0
+	}
+	w.Emit(vt.Ev{"event": "Frames", "d": dir, "n": n, "max_flen": maxF, "min_flen": minF, "all_decoded": all, "types_ok": types, "pad_zero": padz})
 }
